@@ -102,9 +102,10 @@ def run(pid, module, tier, root, seed, quiet=False, evidence=True):
         if ambiguous:
             raise AnalysisError(f'unresolved calls on possible repo receivers: {ambiguous}')
         module.run(ctx)
-        for label, found, minimum in ctx.floors:
-            if found < minimum:
-                raise AnalysisError(f'non-vacuity floor not met: {label}: found {found} < {minimum}')
+        floor_fail = [f'{label}: found {found} < {minimum}' for label, found, minimum in ctx.floors
+                      if found < minimum]
+        if floor_fail and not any(o.verdict == VIOLATED for o in ctx.obs):
+            raise AnalysisError(f'non-vacuity floor not met: {"; ".join(floor_fail)}')
         if not ctx.obs:
             raise AnalysisError('no obligations generated')
     except AnalysisError as e:
@@ -140,6 +141,8 @@ def run(pid, module, tier, root, seed, quiet=False, evidence=True):
                 json.dump({'property': pid, 'root': root, **o.as_dict()}, fh, indent=1)
             replay_paths.append(rp)
             lines.append(f'VIOLATION property={pid} replay={rp}')
+    for ff in floor_fail:
+        lines.append(f'NOTE: non-vacuity floor not met ({ff}); reported together with the violations above')
     stale = [c for c in open_known if not any(o.construct == c and o.verdict == VIOLATED for o in ctx.obs)]
     for c in stale:
         lines.append(f'NOTE: known finding no longer reproduced by the rules: {c}')
